@@ -17,4 +17,4 @@ def run_rule(engine, name):
 
 
 def load_all():
-    from . import schedule, prov, operators, framework, lists, tables, narrow, units, degree, structure, cache  # noqa: F401
+    from . import schedule, prov, operators, framework, lists, tables, narrow, units, degree, structure, cache, closures  # noqa: F401
